@@ -79,4 +79,11 @@ CHECKS = {
             dict(name="regress", run="^TestRegress", shards=(1, 1)),
         ],
     ),
+    "C15": dict(
+        pkg="./c15", level="exploration",
+        runs=[
+            dict(name="bubble", run="^TestPropQueryEvents$", checks=(4000, 40000), shards=(4, 16)),
+            dict(name="regress", run="^(TestRegress.*|TestRealNATSRelease)$", shards=(1, 1)),
+        ],
+    ),
 }
